@@ -78,6 +78,18 @@ CHECKS = {
   text="Every entity in the enumeration (6 name casings x 5 key sets x 3 data sets x 3 status sets x 3 event sets x 3 summary sets x 3 command sets x 4 query settings; all single and pairwise deviations from a default in quick, the small dimensions fully crossed in thorough) compiles, and the output equals the reference expansion: Keys/Data/Status/State/EventType/Event, query service with Get/List/Events (verbs, paths with primary keys in declaration order), command services, publish topic, one upsert topic per summary, all names derived from the entity name; plus annotations: same entity name and the right part on every component, primary-key markers and required-ness, tenant/foreign markers, flattened keys in State/Event, required wrapper fields, state_query / state_command service options and method roles, entity name on topics.",
   note="shard keys not generated (undocumented path effect); 1 open known finding (adjacent capitals in the entity name)",
   design="3/C17"),
+ "C07": dict(
+  engine="E1",
+  technique=TECH_E1 + "; all token sequences up to a length bound over two alphabets, all single-chunk mutations of valid files, one semantic error per class, and the full rule x type acceptance matrix; crash / hang oracle with subprocess isolation",
+  text="Rejecting side: every concatenation of <=3 (quick) / <=4 (thorough) symbols of the 40-symbol BCL alphabet and <=4 / <=5 symbols of a 22-symbol j5s keyword alphabet, every single-chunk deletion / swap / truncation / keyword insertion of ~60 rendered valid files, and ~45 semantic-error bundles (unknown type / ref / attribute / import, duplicates, required+optional, bad formats, service and topic shape errors, cross-file and cross-package cycles, proto syntax error next to a j5s file) are offered to CompilePackage and LintFile: no panic, no fatal, no hang, (files xor error), every error carries a position inside the offending file. Accepting side: every program of C02's families and the full matrix of ~900 rule declarations (each rule kind on each field type, alone in a file that contains nothing else) compiles and links.",
+  note="token sequences share a PackageSet per 1500 cases, candidates are re-run alone before being reported; 12 open known findings (10 error classes without position, float rules unimplemented, inline type named like its parent)",
+  design="3/C07"),
+ "C13": dict(
+  engine="E1",
+  technique="explicit-state breadth-first search over append-edit histories (states = programs deduplicated by canonical source text, transitions = single append edits), invariant checked on every transition and against the seed; every state is compiled by the real pipeline",
+  text="From 10 seed programs (object, oneof, enum, nested inline types, multi-file / multi-package references, service, publish / reqres / upsert topics, entity) every history of <=2 (quick) / <=3 (thorough) append edits is explored: a field of 6 kinds (string, inline object, inline enum, array of ref, inline types named like existing top-level types) at the end of every object / oneof / request / response / topic message / entity data / event; an option, status, event, method or message at the end of every enum / entity / service / publish topic; 7 kinds of top-level declaration at the end of every file (incl. names an existing inline type already has). Invariant on every transition and against the seed: every message, field (name, number, type, type name, label, JSON name, optionality, oneof), enum value (name, number), service and method (types, verb, path) of the earlier program is present and identical.",
+  note="successor states are rebuilt by replaying the history on a freshly built seed; programs the compiler rejects are left to C07",
+  design="3/C13"),
 }
 
 PENDING = {
